@@ -7,6 +7,42 @@ props = [json.loads(l) for l in open(os.path.join(ROOT, "properties.jsonl"))]
 TECH = "explicit TLA+ specification checked with TLC; TLC-generated behaviours replayed into the real code; recorded traces validated by TLC against the same specification"
 
 CLAIMED = {
+ "C03": dict(
+   text="Wire.tla / WireHdr.tla / WireParams.tla transcribe the QUIC wire grammar (varints, the frame layouts and their packet-type legality, long and short headers, transport parameters) as TLA+ decode operators over byte sequences with the prescribed error class; MC_Wire checks the reference codec on itself. Inputs enumerated by TLC (all short strings over a boundary alphabet, every truncation and single-byte substitution of the valid encodings) plus seeded random strings are decoded by the real FrameReader / packet reader / transport-parameter parser for every packet type, connection-id length and role under a panic guard and a watchdog; TLC judges every recorded result (accept vs reject, error class FRAME_ENCODING / PROTOCOL_VIOLATION / TRANSPORT_PARAMETER / drop, bytes consumed > 0).",
+   note="the universal 'for any byte string' is sampled structurally (model-checked reference codec + differential replay judged by TLC), not proved; out-of-bounds reads surface only as panics (safe Rust).",
+   ref="DESIGN.md Part II C03"),
+ "C05": dict(
+   text="Wire.tla (reference codec in TLA+) is checked by TLC for Decode(Encode(v)) = v, Len(Encode(v)) = Size(v) <= MaxSize(v) over the enumerated abstract values; Gen_Wire emits every value (all frame type codes with every flag combination, boundary varints 0..2^62-1 as byte tuples, empty / boundary-length byte fields, six header kinds, primitive codecs, role-legal transport-parameter sets) with the spec's bytes; the real encoder and decoder are run on each and TLC compares real bytes = spec bytes, announced size = bytes written <= announced maximum, decoded value and consumed length in every permitted packet type.",
+   note="values beyond 32 bits are carried as byte tuples / decimal strings (TLC integers are 32-bit).",
+   ref="DESIGN.md Part II C05"),
+ "C04": dict(
+   text="Hostile.tla states, for every hostile-capable frame kind (ACK, NEW_CONNECTION_ID, RETIRE_CONNECTION_ID, MAX_*, STREAM, CRYPTO, RESET_STREAM, STOP_SENDING, packet-number jumps) and every symbolic boundary class of its fields relative to the endpoint's state, the outcomes RFC 9000 allows and an abstract work bound; MC_Hostile checks the table is total and consistent. Gen_Hostile enumerates short legitimate histories x one hostile frame (classes instantiated up to 2^62-1) for the three packet-number spaces; each case is replayed in a forked child into the real handlers in the real dispatch order of qconnection's spaces with a counting allocator and a watchdog; TLC judges outcome, allocation bound, timeliness and absence of panics.",
+   note="cost is measured with generous thresholds: detects asymptotic blow-ups (per-number loops, gap filling), not constant factors.",
+   ref="DESIGN.md Part II C04"),
+ "C06": dict(
+   text="PacketProt.tla: symbolic packet protection (a protected packet is a term; Unprotect succeeds iff authentic, same key generation, reconstructable packet number, RFC 9000 A.3 written in TLA+) plus the 1-RTT key-phase machine as the code has it; MC_PacketProt checks that genuine packets of every generation are accepted under the RFC policy and no forged / stale-key term is ever delivered. Gen_PacketProt enumerates the case matrix (packet types incl. Initial tokens, cid lengths, pn lengths, payload classes, key phases after 0-2 updates, tamper regions) and key-update schedules; the harness assembles each with the real PacketWriter + encrypt_and_protect_packet and real rustls keys, flips every bit of each region (sampled above 2400 bits in the quick tier), runs the real receive path, and TLC judges every record: tampered => discarded silently, genuine => bit-identical header, number, key phase and payload.",
+   note="the 'every bit' claim rests on AEAD: tested, not decided by TLC; one recorded finding (second key update cannot be followed).",
+   ref="DESIGN.md Part II C06"),
+ "C13": dict(
+   text="Recovery.tla transcribes RFC 9002 (loss detection, PTO with back-off, NewReno window, bytes in flight) with the eight clauses of C13 as invariants / action properties; MC_Recovery model-checks the design. Gen_Recovery generates environment schedules (sends with size and flags in three spaces, ACK frames with ranges / delay / ECN, clock advances, ticks, phase flags); they are driven into the real ArcCC under a paused clock with a recording feedback; after every call the read-only snapshot hook (cwnd, ssthresh, bytes in flight, recovery start, pto count, timers, rtt, per-space sent packets) is logged and TLC validates each step: which packets are lost / acknowledged, bytes-in-flight exactness, window floor, at most one shrink per round trip, growth only on acks outside recovery, PTO doubling.",
+   note="float-derived quantities (rtt arithmetic) are taken from the log and only their relation is checked with a tolerance.",
+   ref="DESIGN.md Part II C13"),
+ "C15": dict(
+   text="AntiAmp.tla: credit counter (as an integer, so wrapping is visible), NORMAL / GRANTED / ABORTED state, per-path byte totals and the SendWaker bit, with the burst task's steps (balance read, segments, padding, debit after the burst) interleaved with arrivals at the granularity of the atomic operations; MC_AntiAmp checks sent <= 3 x rcvd while unvalidated, CreditNeverWraps, ResumeOnRcvdOrGrant, nothing after abort. Every call sequence TLC enumerates is executed on the real AntiAmplifier (+ Constraints) and validated step by step; per-path datagram byte counts of full-stack runs (vh-sim) are validated against the same invariants.",
+   note="one recorded finding on the full stack (burst / padding beyond the credit).",
+   ref="DESIGN.md Part II C15"),
+ "C16": dict(
+   text="Wakers.tla: monitor of the property (conditions, owed notifications, sleepers, wake counters; NoLostWakeup, CloseWakesAll, ResultAgrees, liveness EventuallyObserves under fair re-polling) and the two protocol shapes of the code (waker slot next to the data; SendWaker bitmask with the condition checked outside the lock; the CidCell composite) as refinements; MC_Wakers checks safety and liveness for 1-2 waiters and 1-2 notifiers with a negative control. Gen_Wakers enumerates every call order (check, register, re-poll, drop, set, notify, close) to a fixed depth per class; each is executed on 37 real waiter/notifier objects with counting wakers and every step is validated by TLC.",
+   note="call granularity (lock-protected operations); SendBuffer::write is split at a sync-point hook.",
+   ref="DESIGN.md Part II C16"),
+ "C18": dict(
+   text="Params.tla: the legality table of RFC 9000 18.2 / RFC 9221 / RFC 9287 (id x sender role x type x range x mandatory), the two-event protocol (parameters / first-packet SCID in both orders, Retry) with connection-id authentication, negotiated idle timeout, 0-RTT acceptance; MC_Params checks Ready => validated and authenticated, failure sticky. Gen_Params enumerates parameter sets (each id present / absent, values at and beyond bounds as ordered boundary points, role-inappropriate and unknown ids), cid values, both roles and orders; each is fed to the real parser / typed setters, recv_remote_params and initial_scid_from_peer_need_equal, and TLC judges verdict, error kind, readiness, wake-up of the ready future, idle timeout and 0-RTT decision.",
+   note="62-bit values are ordered boundary points carried as strings.",
+   ref="DESIGN.md Part II C18"),
+ "C19": dict(
+   text="Datagram.tla: peer / local maximum (0 = disabled), FIFO of accepted datagrams, Pack with remaining-space rules (with / without length, padding first), network loss, receive-side size check, reader; RefusedIffTooBig, OneFramePerDatagram, PayloadUnchanged, OrderAmongArrivals, OversizedReceiveIsProtocolViolation and liveness AcceptedEventuallyOnWire. Every call sequence TLC enumerates (sizes around the limits, remaining-space values around the frame size) is executed on the real DatagramFlow / writer / reader and validated step by step; a connection-level run on the real stack decides that accepted datagrams are put on the wire and delivered whole.",
+   note="two recorded findings (frame larger than the peer's maximum can be emitted; head-of-line blocking by a datagram that fits no packet).",
+   ref="DESIGN.md Part II C19"),
  "C02": dict(
    text="Conn.tla states C02 over network events (every datagram with its coalesced packets and fate, every delivered copy), the packet logs of both endpoints (packet_sent / packet_received with type and number) and application events (writes, reads with content check, end of stream, completion); MC_Conn.tla, the design (numbered packets, retransmission as new numbers, a network that drops / duplicates / reorders / damages datagrams, a receiver that accepts a packet iff it arrived unmodified and is new), is model-checked: tampered and replayed packets are never accepted, only sent data is delivered, the monitor raises no alarm on the design, and with bounded faults everything is delivered. Fault schedules enumerated by TLC (Gen_Conn: every assignment of deliver/drop/duplicate/delay/bit-flip/truncate to the first K datagrams of each direction with at most 2 faults) plus seeded random bounded and unbounded profiles are run against the real client+server stack over an in-memory network under virtual time, and every recorded event is judged by TLC against Conn.tla: packets logged as received must have arrived intact and only once, bytes read must have been written by the peer, nothing panics, under bounded faults the transfer completes, under unbounded ones both applications are told within 3 idle periods.",
    note="TLC, JSON trace I/O, qevent telemetry feature; TLS is opaque and AEAD is trusted; packets are identified on the wire by FIFO order per type against the sender's packet_sent log, cross-checked by length.",
